@@ -1,6 +1,22 @@
-(* Corr/RegionsCorr.v — correspondence entry points. *)
+(* Corr/RegionsCorr.v — correspondence entry points for package regions.
+   Kind regions_at: [starts ends queries] -> [i0 [answers...]] | [i2] (panic);
+   each answer is the list of interval serial numbers (nil = empty list). *)
 From Coq Require Import String.
 From Bio Require Import Base.
 From Bio.Model Require Import Regions.
 
-Definition corr_regions : list (string * (val -> val)) := [].
+Definition v_nats (l : list nat) : val := VL (map (fun n => VI (Z.of_nat n)) l).
+
+Definition c_regions_at (v : val) : val :=
+  match v with
+  | VL [s; e; q] =>
+    match as_int_list s, as_int_list e, as_int_list q with
+    | Some starts, Some ends, Some queries =>
+      v_outcome (fun answers => VL (map v_nats answers)) (regions_at starts ends queries)
+    | _, _, _ => v_bad
+    end
+  | _ => v_bad
+  end.
+
+Definition corr_regions : list (string * (val -> val)) :=
+  [ ("regions_at"%string, c_regions_at) ].
